@@ -547,7 +547,7 @@ func readPlan(path string) []act {
 // ---------------------------------------------------------------- stress mode
 
 func runStress(w *tr.W, rng *rand.Rand, kind string, nl, qsize, threads, per int, earlyStop bool) {
-	wd := newWorld(kind, nl, qsize, rng.Intn(2) == 0)
+	wd := newWorld(kind, nl, qsize, true)
 	wd.x = qx.New(0)
 	wd.spin = rng.Intn(4)
 	pool := hashPool(rng, nl)[:3]
@@ -638,7 +638,17 @@ func main() {
 			if len(p) == 0 || p[0].Op != "init" {
 				tr.Fatal("plan %s does not start with init", f)
 			}
-			runPlan(w, "plan:"+filepath.Base(f), p[0].Kind, p[0].Nl, p[0].Qsize, i%2 == 0, p[1:])
+			// a plan is a schedule of external actions; it is applied to every kind of executor in
+			// turn (steps that do not apply are skipped), lanes as generated when it was an mline plan
+			kind := []string{"line", "mline", "runq", "pchan"}[i%4]
+			nl := 1
+			if kind == "mline" {
+				nl = p[0].Nl
+				if nl < 2 {
+					nl = lanesL[(i/4)%len(lanesL)]
+				}
+			}
+			runPlan(w, "plan:"+filepath.Base(f), kind, nl, p[0].Qsize, true, p[1:])
 		}
 	}
 	for i := 0; i < *nrand; i++ {
@@ -647,7 +657,11 @@ func main() {
 		if kind == "mline" {
 			nl = lanesL[rng.Intn(len(lanesL))]
 		}
-		runPlan(w, "rand", kind, nl, qsL[rng.Intn(len(qsL))], rng.Intn(2) == 0, randPlan(rng, nl, 25+rng.Intn(35)))
+		plan := randPlan(rng, nl, 25+rng.Intn(35))
+		// IndexOf is probed for every new hash; in a few schedules that start the consumers first
+		// it is not, and the lane of a hash is learned from where its calls run
+		withIdx := !(plan[0].Op == "run" && rng.Intn(8) == 0)
+		runPlan(w, "rand", kind, nl, qsL[rng.Intn(len(qsL))], withIdx, plan)
 	}
 	w.Close()
 	sw := tr.Create(*stress)
